@@ -203,7 +203,7 @@ static void checkAbs(const Mode& m, const RefInfo& ri, const Obs& o, vector<Alar
     // C20: only "a well-formed suffix is still decoded": ... 55 aa 71 at the end
     if (!o.closed && !o.noProgress && !o.badResult) {
       bool ok = got.size() >= 3 && got[got.size() - 3] == 0x55 && got[got.size() - 2] == 0xaa && got[got.size() - 1] == core::FLUSH2;
-      if (!ok) out->push_back({"suffix-not-decoded", ri.cls, "well-formed suffix 70 | 55 c6 aa | 71 must end the symbols with [55 aa 71], observed " + symsOf(o)});
+      if (!ok) out->push_back({"suffix-not-decoded", ri.cls, "the well-formed suffix 70 | 55 c6 aa | 71 sent again after the drain must end the symbols with [55 aa 71], observed " + symsOf(o)});
     }
     return;
   }
@@ -477,6 +477,7 @@ class Explorer {
     core::pushFlush(m);
     core::runLoop(f, m.pat);
     core::drain(f);
+    core::secondSuffix(f, m);
     core::deactivate(f);
     if (f->clock - c0 >= 900) g_clockBad++;
     g_finalsRun++;
@@ -706,6 +707,7 @@ static int replayEnh(std::map<string, string>& c, bool san) {
   bool bad = false;
   vector<Alarm> al;
   Obs o1 = core::runStateless(m, p);
+  if (m.san) printf("(the suffix 70 | 55 c6 aa | 71 is sent twice: with the stream and again after the drain; the second one is judged)\n");
   printf("chunks %s ('-' boundary, '_' boundary + receive timeout)\n  observed: %s\n", core::partText(p).c_str(), obsText(o1).c_str());
   checkAbs(m, ri, o1, &al);
   if (haveVs) {
@@ -803,6 +805,7 @@ static Obs runInfoSession(const Mode& m, const InfoCase& ic) {
   core::pushFlush(m);
   core::runLoop(&c, m.pat);
   core::drain(&c);
+  core::secondSuffix(&c, m);
   core::deactivate(&c);
   env::fdClear();
   core::g_rec.obs = nullptr;
@@ -811,7 +814,7 @@ static Obs runInfoSession(const Mode& m, const InfoCase& ic) {
   return ob;
 }
 static bool infoOk(const Obs& ob) {
-  return !ob.closed && !ob.noProgress && !ob.badResult && ob.nsyms >= 3 && ob.nsyms <= 4 && ob.syms[ob.nsyms - 3] == 0x55 && ob.syms[ob.nsyms - 2] == 0xaa &&
+  return !ob.closed && !ob.noProgress && !ob.badResult && ob.nsyms >= 3 && ob.nsyms <= 8 && ob.syms[ob.nsyms - 3] == 0x55 && ob.syms[ob.nsyms - 2] == 0xaa &&
          ob.syms[ob.nsyms - 1] == core::FLUSH2;
 }
 static void infoSessions(const Mode& m, int part, int nparts, bool thorough) {
